@@ -12,6 +12,28 @@ def strip_generics(path):
     return path
 
 
+def norm_path(s):
+    """drop every balanced `<..>` group: `a::B<M, W>::f::{closure#0}::S<'_>` -> `a::B::f::{closure#0}::S`"""
+    out = []
+    depth = 0
+    prev = ''
+    for ch in s:
+        if ch == '<':
+            depth += 1
+        elif ch == '>' and prev != '-':
+            if depth > 0:
+                depth -= 1
+            prev = ch
+            continue
+        if depth == 0:
+            out.append(ch)
+        prev = ch
+    r = ''.join(out)
+    while '::::' in r:
+        r = r.replace('::::', '::')
+    return r
+
+
 class Place:
     __slots__ = ('local', 'proj', 'ty', 'own')
     def __init__(self, j):
